@@ -367,3 +367,59 @@ def r4_one_counter(ctx):
             bad += 1
     ctx.ob(rid, "counter-restarted-per-go", bad == 0, "" if bad == 0 else "reset_for_go has %d path(s) that leave metrics.%s (the counter behind `nodes`) running from the previous search" % (bad, which), ctx.where(rg),
            sample={"counter": "metrics." + which, "paths": len(pes)})
+
+
+def r5_clock_origin(ctx):
+    """necessary condition of 'time never decreases within one search': the origin of the search clock is set only
+    where a search starts, never while it runs"""
+    rid = "C16.R5"
+    ctx.rule(rid, "SearchState.started_at (the origin of every reported `time` / `nps`) is written only by Search::go and Search::best_move, outside any loop and before the iterations, and by the state's constructor; nothing reachable from the recursive search or the message poll writes it", floor=3)
+    from ..callgraph import CallGraph
+    prog = ctx.prog
+    writers = {}
+    for k, f in prog.fns.items():
+        if f.get("test") or not k.startswith("inkayaku_engine_core"):
+            continue
+        cfg = None
+        for bi, b in enumerate(f["blocks"]):
+            if b["cleanup"]:
+                continue
+            for s in b["stmts"]:
+                d = s["dst"]
+                named = d is not None and d["p"] and isinstance(d["p"][-1], dict) and d["p"][-1].get("name") == "started_at"
+                in_agg = s["rv"]["op"] == "agg" and s["rv"].get("adt", "").endswith("SearchState") and "started_at" in (s["rv"].get("fields") or [])
+                if named or in_agg:
+                    cfg = cfg or Cfg(f)
+                    writers.setdefault(k, []).append((bi, s["line"], cfg.in_loop(bi), "field" if named else "constructor"))
+    if not writers:
+        ctx.lost(rid, "no write of SearchState.started_at found")
+        return
+    cg = CallGraph(prog)
+    during, _ = cg.reachable([SEARCH + "search_negamax", SEARCH + "search_quiescence", SEARCH + "check_messages"])
+    allowed = {SEARCH + "go", SEARCH + "best_move"}
+    for k, ws in sorted(writers.items()):
+        f = prog.fns[k]
+        for bi, line, in_loop, how in ws:
+            if how == "constructor":
+                ok = k not in during
+                why = "" if ok else "%s builds a fresh SearchState while a search is running" % f["display"]
+            else:
+                ok = k in allowed and not in_loop and k not in during
+                why = "" if ok else "%s resets the clock origin%s: the `time` of the next info line of the same search restarts from 0 (time decreases within one search)" % (
+                    f["display"], " inside a loop" if in_loop else (" while the search is running (reachable from the recursive search / message poll)" if k in during else ""))
+            ctx.ob(rid, "writer|%s|%s" % (k, how), ok, why, ctx.where(f, line), sample={"function": k, "in_loop": in_loop})
+    # in best_move the reset precedes the iteration loop
+    f = ctx.fn(rid, SEARCH + "best_move")
+    cfg = Cfg(f)
+    ws = [w for w in writers.get(SEARCH + "best_move", []) if w[3] == "field"]
+    heads = sorted({h for (a, h) in cfg.back_edges()})
+    ok = bool(ws) and bool(heads) and all(cfg.dominates(w[0], h) for w in ws for h in heads)
+    ctx.ob(rid, "best_move|reset-before-iterations", ok, "" if ok else "Search::best_move does not set the clock origin before its iteration loop", ctx.where(f))
+
+
+_run_before_r5 = run
+
+
+def run(ctx):
+    _run_before_r5(ctx)
+    r5_clock_origin(ctx)
